@@ -76,6 +76,42 @@ def templates():
         ('duplicate-local-label-in-one-macro', 'def m @ loc {\nloc:\n;loc\nloc:\n;\n}\nm\n', True, 'loc'),
         ('duplicate-local-label-through-a-callee', 'def decl l {\nl:\n;\n}\ndef m @ loc {\nloc:\n;loc\ndecl loc\n}\nm\n', True, 'loc'),
         ('user-label-named-like-the-wflip-area-label', ';\nsegment 64*w\nns _ {\nwflip_area_start_0:\n;\n}\n', None, None),
+        ('escape-0-in-char', ';\'\\0\' & 0xff\n', False, None),
+        ('escape-0-in-string', ';"a\\0b" & 0xff\n', False, None),
+        ('escape-a-in-char', ';\'\\a\' & 0xff\n', False, None),
+        ('escape-a-in-string', ';"a\\ab" & 0xff\n', False, None),
+        ('escape-b-in-char', ';\'\\b\' & 0xff\n', False, None),
+        ('escape-b-in-string', ';"a\\bb" & 0xff\n', False, None),
+        ('escape-e-in-char', ';\'\\e\' & 0xff\n', False, None),
+        ('escape-e-in-string', ';"a\\eb" & 0xff\n', False, None),
+        ('escape-f-in-char', ';\'\\f\' & 0xff\n', False, None),
+        ('escape-f-in-string', ';"a\\fb" & 0xff\n', False, None),
+        ('escape-n-in-char', ';\'\\n\' & 0xff\n', False, None),
+        ('escape-n-in-string', ';"a\\nb" & 0xff\n', False, None),
+        ('escape-r-in-char', ';\'\\r\' & 0xff\n', False, None),
+        ('escape-r-in-string', ';"a\\rb" & 0xff\n', False, None),
+        ('escape-t-in-char', ';\'\\t\' & 0xff\n', False, None),
+        ('escape-t-in-string', ';"a\\tb" & 0xff\n', False, None),
+        ('escape-v-in-char', ';\'\\v\' & 0xff\n', False, None),
+        ('escape-v-in-string', ';"a\\vb" & 0xff\n', False, None),
+        ('escape-backslash-in-char', ';\'\\\\\' & 0xff\n', False, None),
+        ('escape-backslash-in-string', ';"a\\\\b" & 0xff\n', False, None),
+        ('escape-quote-in-char', ';\'\\\'\' & 0xff\n', False, None),
+        ('escape-quote-in-string', ';"a\\\'b" & 0xff\n', False, None),
+        ('escape-dquote-in-char', ';\'\\\"\' & 0xff\n', False, None),
+        ('escape-dquote-in-string', ';"a\\\"b" & 0xff\n', False, None),
+        ('escape-question-in-char', ';\'\\?\' & 0xff\n', False, None),
+        ('escape-question-in-string', ';"a\\?b" & 0xff\n', False, None),
+        ('escape-x41-in-char', ';\'\\x41\' & 0xff\n', False, None),
+        ('escape-x41-in-string', ';"a\\x41b" & 0xff\n', False, None),
+        ('escape-X41-in-char', ';\'\\X41\' & 0xff\n', False, None),
+        ('escape-X41-in-string', ';"a\\X41b" & 0xff\n', False, None),
+        ('escape-xfF-in-char', ';\'\\xfF\' & 0xff\n', False, None),
+        ('escape-xfF-in-string', ';"a\\xfFb" & 0xff\n', False, None),
+        ('escape-XAb-in-char', ';\'\\XAb\' & 0xff\n', False, None),
+        ('escape-XAb-in-string', ';"a\\XAbb" & 0xff\n', False, None),
+        ('bad-escape-q-in-char', ';\'\\q\'\n', True, None),
+        ('bad-hex-escape-one-digit', ';\'\\x4\'\n', True, None),
         ('macro-recursion-through-rep', 'def recrep {\nrep(1, i) recrep\n}\nrecrep\n', True, 'recrep'),
         ('macro-recursion-through-rep-with-arg', 'def recarg x {\nrep(2, i) recarg x+i\n}\nrecarg 0\n', True, 'recarg'),
         ('macro-mutual-recursion-through-rep', 'def ma {\nmb\n}\ndef mb {\nrep(1, i) ma\n}\nma\n', True, None),
